@@ -306,6 +306,32 @@ pub fn run(out_prefix: &str, shards: usize, families: &[String], seed: u64, full
                     }
                 }
             }
+            // suffix chains: a deep state whose failure target is a non-matching state that
+            // itself inherits a match through a second failure hop, with the first bytes of
+            // the branches in every relative order (the breadth-first order of the failure
+            // pass matters), every order of the patterns
+            "chains" => {
+                for perm in [[0usize, 1, 2], [2, 1, 0], [1, 0, 2], [0, 2, 1], [2, 0, 1], [1, 2, 0]] {
+                    let letters = [b'a', b'b', b'c'];
+                    let (x, y, z) = (letters[perm[0]], letters[perm[1]], letters[perm[2]]);
+                    for tail in [0usize, 1] {
+                        // w = x y z (+ y): patterns  w·d,  w[1..]·e,  w[2..]  (and a fourth hop)
+                        let mut w = vec![x, y, z];
+                        if tail == 1 { w.push(y); }
+                        let p1: Vec<u8> = w.iter().copied().chain([b'd']).collect();
+                        let p2: Vec<u8> = w[1..].iter().copied().chain([b'e']).collect();
+                        let p3: Vec<u8> = w[2..].to_vec();
+                        let p4: Vec<u8> = w[w.len() - 1..].to_vec();
+                        for order in [[0usize, 1, 2, 3], [3, 2, 1, 0], [1, 3, 0, 2], [2, 0, 3, 1]] {
+                            let all = [&p1, &p2, &p3, &p4];
+                            let l: Pats = order.iter().map(|&k| all[k].clone()).collect();
+                            emit(&mut out, &mut stats, &l, false);
+                            let l3: Pats = order.iter().filter(|&&k| k != 3).map(|&k| all[k].clone()).collect();
+                            emit(&mut out, &mut stats, &l3, false);
+                        }
+                    }
+                }
+            }
             // small exhaustive families over bytes at the edges of the byte range
             "edge" => {
                 for alpha in [&[0x01u8, 0x02][..], &[0xFE, 0xFF][..], &[0x00, 0x7F][..], &[0x80, 0x01][..]] {
